@@ -246,3 +246,95 @@ def namespace(extra=None):
     if extra:
         ns.update(extra)
     return ns
+
+
+# --------------------------------------------------------------- token streams (structure-level harnesses) ---
+class TokIO:
+    """NumpyIO twin whose content is a token list: ('b', byte) ('v', varint value) ('s', bytes).  Unbounded."""
+
+    def __init__(self, toks=None):
+        self.toks = toks if toks is not None else []
+        self.pos = 0
+        self.loc = 0
+        self.nbytes = 1 << 60
+
+    def write_byte(self, b):
+        self.toks.append(("b", b & 0xff))
+
+    def read_byte(self):
+        if self.pos >= len(self.toks):
+            raise CapacityViolation("read past the end of the stream")
+        k, b = self.toks[self.pos]
+        if k != "b":
+            raise ValueError("byte expected in stream, found %s" % k)
+        self.pos += 1
+        return b
+
+    def norm(self):
+        return list(self.toks)
+
+    def tell(self):
+        return self.pos
+
+    def seek(self, n, whence=0):
+        # only used to step over bytes just taken with bytes_at/str_at
+        if whence != 1:
+            raise ValueError("absolute seek on a token stream")
+        k, s = self.toks[self.pos]
+        if k != "s" or len(s) != n:
+            raise ValueError("seek over %r bytes but next token is %r" % (n, (k, s)))
+        self.pos += 1
+        return self.pos
+
+
+def tok_encode_varint(x, io):
+    if type(x) is int and 0 <= x < 128:
+        io.toks.append(("b", x))          # a one-byte varint is that byte
+    else:
+        io.toks.append(("v", x))
+
+
+def tok_read_varint(io):
+    if io.pos >= len(io.toks):
+        raise CapacityViolation("read past the end of the stream")
+    k, v = io.toks[io.pos]
+    if k == "b" and v < 128:
+        io.pos += 1
+        return v
+    if k != "v":
+        raise ValueError("varint expected in stream, found %s" % k)
+    io.pos += 1
+    return v
+
+
+def tok_long_zigzag(n):
+    return 2 * abs(n) - (n < 0)
+
+
+def tok_zigzag_long(u):
+    return (u // 2) * (1 - 2 * (u % 2)) - (u % 2)
+
+
+_orig_memcpy_to, _orig_bytes_at = memcpy_to, bytes_at
+
+
+def memcpy_to(io, src, n):       # noqa: F811  (token-aware wrapper)
+    if isinstance(io, TokIO):
+        io.toks.append(("s", bytes(src[:n])))
+        return
+    return _orig_memcpy_to(io, src, n)
+
+
+def bytes_at(io, n):             # noqa: F811
+    if isinstance(io, TokIO):
+        if n < 0:
+            raise SystemError("Negative size passed to PyBytes_FromStringAndSize")
+        k, s = io.toks[io.pos]
+        if k != "s" or len(s) != n:
+            raise ValueError("%r bytes expected in stream, found %r" % (n, (k, s)))
+        return s
+    return _orig_bytes_at(io, n)
+
+
+def str_at(io, n):               # noqa: F811
+    return bytes_at(io, n).decode("utf8", "ignore")
